@@ -297,6 +297,13 @@ func (f *file) WriteAt(p []byte, off int64) (n int, err error) {
 }
 
 func (f *file) WriteBlobAt(p blob.Blob, off int64) (n int, err error) {
+	if err := f.closedErr("writeat"); err != nil {
+		return 0, err
+	}
+	if f.flag&hackpadfs.FlagAppend != 0 {
+		// like os.File: an offset makes no sense when every write goes to the end
+		return 0, &hackpadfs.PathError{Op: "writeat", Path: f.path, Err: errors.New("invalid use of WriteAt on file opened with O_APPEND")}
+	}
 	return f.writeBlobAt("writeat", p, off)
 }
 
